@@ -2,9 +2,11 @@
 package main
 
 import (
+	"bytes"
 	"errors"
 	"fmt"
 	"os"
+	"os/exec"
 	"sort"
 	"strconv"
 	"strings"
@@ -29,6 +31,8 @@ func main() {
 		extract(os.Args[2], os.Args[3])
 	case "corr":
 		corr.Main(spec(), os.Args[2:])
+	case "stress":
+		stressChild(os.Args[2:])
 	default:
 		os.Exit(2)
 	}
@@ -110,6 +114,70 @@ type sess struct {
 
 func (s *sess) hit(site, what, msg string) {
 	s.hits = append(s.hits, corr.Hit{Key: "C19:" + site + ":" + what, What: msg})
+}
+
+// Byte strings in the word protocol: printable ASCII 0x21–0x7E stands for itself except '%'; any byte may be written %XX (two
+// upper-case hex digits); `_` alone is the empty string. Go strings are byte strings, so (area, phone, code) reach the implementation
+// exactly as written.
+func hexVal(c byte) (int, bool) {
+	switch {
+	case c >= '0' && c <= '9':
+		return int(c - '0'), true
+	case c >= 'A' && c <= 'F':
+		return int(c-'A') + 10, true
+	}
+	return 0, false
+}
+
+func unescape(w string) (string, bool) {
+	var b []byte
+	for i := 0; i < len(w); i++ {
+		if w[i] != '%' {
+			b = append(b, w[i])
+			continue
+		}
+		if i+2 >= len(w) {
+			return "", false
+		}
+		x, ok1 := hexVal(w[i+1])
+		y, ok2 := hexVal(w[i+2])
+		if !ok1 || !ok2 {
+			return "", false
+		}
+		b = append(b, byte(x*16+y))
+		i += 2
+	}
+	return string(b), true
+}
+
+func tokB(w string) (string, bool) {
+	if w == "_" {
+		return "", true
+	}
+	return unescape(w)
+}
+
+// escLit writes a byte string as protocol text; esc also maps the empty string to `_` (and a lone underscore to %5F).
+func escLit(s string) string {
+	var b strings.Builder
+	for i := 0; i < len(s); i++ {
+		if c := s[i]; c < 0x21 || c > 0x7E || c == '%' {
+			fmt.Fprintf(&b, "%%%02X", c)
+		} else {
+			b.WriteByte(c)
+		}
+	}
+	return b.String()
+}
+
+func esc(s string) string {
+	switch s {
+	case "":
+		return "_"
+	case "_":
+		return "%5F"
+	}
+	return escLit(s)
 }
 
 func tok(s string) string {
@@ -538,7 +606,7 @@ func (s *sess) codeArgBase(ps *pairState, w string) (string, bool) {
 		}
 		return "x" + ps.code[1:], true
 	case strings.HasPrefix(w, "lit:"):
-		return w[4:], true
+		return unescape(w[4:])
 	case strings.HasPrefix(w, "c"):
 		k, ok := parseNat(w[1:])
 		if !ok {
@@ -644,6 +712,140 @@ func (s *sess) verify(a, p, cw, hw string) string {
 		ps.othersSince = 0 // the entry was found: Get moved it to the front
 	}
 	return out
+}
+
+// stressChild (separate process: a crash must not take the runner down): g goroutines call SendSMSCode / VerifySMSCode on one
+// instance, each on its own phone numbers. The property speaks of sequences of calls; this only checks that concurrent callers
+// on distinct pairs do not crash the process (e.g. `concurrent map read and map write` in an unlocked cache method).
+func stressChild(args []string) {
+	if len(args) != 2 {
+		os.Exit(2)
+	}
+	g, _ := strconv.Atoi(args[0])
+	n, _ := strconv.Atoi(args[1])
+	cfg := &vcode.Config{CacheSize: 1000, Mock: true, CodeLen: 4, MaxCount: 3, MaxVerifyCount: 3,
+		TTL: msDur(neverMs), MinInterval: msDur(alwaysMs), CounterDuration: msDur(neverMs)}
+	l := vcode.NewSimpleLogic(cfg, &fakeSMS{}, nil)
+	done := make(chan bool, g)
+	for w := 0; w < g; w++ {
+		go func(w int) {
+			for i := 0; i < n; i++ {
+				ph := strconv.Itoa(w) + "-" + strconv.Itoa(i)
+				h, _ := l.SendSMSCode("86", ph)
+				_ = l.VerifySMSCode("86", ph, mockSpec(ph, 4), h)
+			}
+			done <- true
+		}(w)
+	}
+	for w := 0; w < g; w++ {
+		<-done
+	}
+	fmt.Println("stress-done")
+}
+
+// stress line: runs stressChild in a child process; a crash is a monitor hit.
+func (s *sess) stress(gw, nw string) string {
+	g, ok1 := parseNat(gw)
+	n, ok2 := parseNat(nw)
+	if !ok1 || !ok2 || g < 1 || g > 64 || n > 100000 {
+		return "bad-op"
+	}
+	cmd := exec.Command(os.Args[0], "stress", strconv.Itoa(g), strconv.Itoa(n))
+	var out bytes.Buffer
+	cmd.Stdout, cmd.Stderr = &out, &out
+	if err := cmd.Start(); err != nil {
+		return "stress=ok" // cannot start a child here: nothing observed
+	}
+	done := make(chan error, 1)
+	go func() { done <- cmd.Wait() }()
+	select {
+	case err := <-done:
+		if err != nil || !strings.Contains(out.String(), "stress-done") {
+			first := strings.SplitN(strings.TrimSpace(out.String()), "\n", 2)[0]
+			s.hit("concurrent-callers", "crash", fmt.Sprintf("%d goroutines x %d send+verify on distinct phones of one instance: the process died: %s", g, n, first))
+			return "stress=crash"
+		}
+	case <-time.After(60 * time.Second):
+		_ = cmd.Process.Kill()
+		s.hit("concurrent-callers", "crash", fmt.Sprintf("%d goroutines x %d send+verify on distinct phones: no end after 60 s (deadlock?)", g, n))
+		return "stress=crash"
+	}
+	return "stress=ok"
+}
+
+func bulkPhone(i int) string { return strconv.FormatInt(13900000000+int64(i), 10) }
+
+// bulk: a fresh instance (mock mode, all durations "never"), n sends to distinct generated pairs, then pair k is verified with the
+// code and hash of its send and re-sent. The cache really holds min(n, CacheSize) entries afterwards.
+func (s *sess) bulk(cw, nw, kw string) (out string) {
+	capN, ok1 := parseNat(cw)
+	n, ok2 := parseNat(nw)
+	k, ok3 := parseNat(kw)
+	if !ok1 || !ok2 || !ok3 || n > 200000 {
+		return "bad-op"
+	}
+	defer func() {
+		if r := recover(); r != nil {
+			out = "panic"
+		}
+	}()
+	cfg := &vcode.Config{CacheSize: int64(capN), Mock: true, CodeLen: 4, MaxCount: 3, MaxVerifyCount: 3,
+		TTL: msDur(neverMs), MinInterval: msDur(neverMs), CounterDuration: msDur(neverMs)}
+	l := vcode.NewSimpleLogic(cfg, &fakeSMS{}, nil)
+	hashK := bogusHash
+	for i := 0; i < n; i++ {
+		h, err := l.SendSMSCode("86", bulkPhone(i))
+		if err != nil {
+			s.hit("SendSMSCode", "send-refused-without-cause", fmt.Sprintf("bulk: first send to generated pair %d of %d refused: %v", i, n, err))
+			return "send-failed"
+		}
+		if i == k {
+			hashK = h
+		}
+	}
+	vo := verifyOut(l.VerifySMSCode("86", bulkPhone(k), mockSpec(bulkPhone(k), 4), hashK))
+	_, serr := l.SendSMSCode("86", bulkPhone(k))
+	so := "err:other"
+	switch {
+	case serr == nil:
+		so = "ok h" + strconv.Itoa(n+1)
+	case errors.Is(serr, vcode.ErrSendTooFreq):
+		so = "err:tooFreq"
+	case errors.Is(serr, vcode.ErrSendCountLimit):
+		so = "err:countLimit"
+	}
+	// monitors: pair k was sent and fewer than CacheSize pairs were touched since ⇒ its entry cannot have been evicted
+	desc := fmt.Sprintf("bulk: CacheSize %d, %d sends to distinct pairs, pair %d (followed by %d others): verify with its code and hash → %s, re-send inside MinInterval → %s", capN, n, k, n-1-k, vo, so)
+	switch {
+	case k < n && n-1-k < capN:
+		if vo != "ok" {
+			s.hit("VerifySMSCode", "sent-code-never-verifies", desc)
+		}
+		if so != "err:tooFreq" {
+			s.hit("SendSMSCode", "min-interval-not-enforced", desc)
+		}
+	case k >= n && vo == "ok":
+		s.hit("VerifySMSCode", "wrong-input-accepted", desc+": nothing was sent to this pair")
+	}
+	return "verify=" + vo + " resend=" + so
+}
+
+func verifyOut(err error) string {
+	switch {
+	case err == nil:
+		return "ok"
+	case errors.Is(err, vcode.ErrVerifyCodeNotExist):
+		return "err:notExist"
+	case errors.Is(err, vcode.ErrVerifyCodeRetryLimit):
+		return "err:retryLimit"
+	case errors.Is(err, vcode.ErrVerifyCodeNotMatch):
+		return "err:notMatch"
+	case errors.Is(err, vcode.ErrVerifyCodeHashNotMatch):
+		return "err:hashNotMatch"
+	case errors.Is(err, vcode.ErrVerifyCodeTimeout):
+		return "err:timeout"
+	}
+	return "err:other"
 }
 
 // scripted random source: fn(n) = v_i mod n (0 once the script ran out); n <= 0 panics like rand.Intn.
@@ -808,12 +1010,26 @@ func (s *sess) line(l string) string {
 		if !s.inited {
 			return "bad-op"
 		}
-		return s.send(tok(f[1]), tok(f[2]))
+		a, ok1 := tokB(f[1])
+		p, ok2 := tokB(f[2])
+		if !ok1 || !ok2 {
+			return "bad-op"
+		}
+		return s.send(a, p)
 	case f[0] == "verify" && len(f) == 5:
 		if !s.inited {
 			return "bad-op"
 		}
-		return s.verify(tok(f[1]), tok(f[2]), f[3], f[4])
+		a, ok1 := tokB(f[1])
+		p, ok2 := tokB(f[2])
+		if !ok1 || !ok2 {
+			return "bad-op"
+		}
+		return s.verify(a, p, f[3], f[4])
+	case f[0] == "bulk" && len(f) == 4:
+		return s.bulk(f[1], f[2], f[3])
+	case f[0] == "stress" && len(f) == 3:
+		return s.stress(f[1], f[2])
 	case f[0] == "nonce" && len(f) == 4:
 		return s.nonce(f[1], f[2], f[3])
 	case f[0] == "cover" && len(f) == 2:
@@ -865,7 +1081,7 @@ func newLine(p params) string {
 func genParams(r *rng.R) params {
 	cap := 100000
 	if r.Chance(1, 6) {
-		cap = r.PickInt(0, 1, 2, 2, 3, 3, 4)
+		cap = r.PickInt(0, 1, 2, 2, 3, 3, 4, 8, 16, 17)
 	}
 	return params{cap: cap, mock: r.Bool(), codeLen: r.PickInt(0, 1, 4, 6, 25, 4, 6, 1, 25, 0, -1), maxc: r.PickInt(-1, 0, 1, 2, 3, 3), maxv: r.PickInt(-1, 0, 1, 2, 3, 3, 5),
 		ttl: pickDur(r, r.Chance(1, 6), neverMs, 0, 1, 5, 1000), mini: pickDur(r, r.Chance(4, 5), neverMs, 0, 1, 3, 1000),
@@ -907,14 +1123,17 @@ type gen struct {
 // pair universe: area codes and phones with and without dashes, and empty strings (`_`), in every tier.
 // `confusable` lists groups of distinct pairs that a joined key cannot tell apart: with a dash (first three) or
 // without any separator (last).
-var areas = []string{"1", "12", "86", "1-2", "1-", "-", "_", "1-809"}
-var phones = []string{"23", "3", "5551234", "7-7", "13800138000", "2-3", "-3", "-23", "_"}
+var areas = []string{"1", "12", "86", "1-2", "1-", "-", "_", "1-809", "%C3%A9", "%C3"}
+var phones = []string{"23", "3", "5551234", "7-7", "13800138000", "2-3", "-3", "-23", "_", "%A95", "5", "%C3%A9%C3%A9", "7%E4%B8%AD", "%5F"}
 var confusable = [][][2]string{
 	{{"1-2", "3"}, {"1", "2-3"}},
 	{{"1-", "3"}, {"1", "-3"}},
 	{{"_", "-3"}, {"-", "3"}},
 	{{"1-2", "-3"}, {"1", "2--3"}, {"1-2-", "3"}},
 	{{"1", "23"}, {"12", "3"}, {"_", "123"}},
+	// "é" = C3 A9: a key that counts characters instead of bytes, or joins without separator, confuses these
+	{{"%C3%A9", "5"}, {"%C3", "%A95"}},
+	{{"%C3%A9", "%C3%A9"}, {"%C3", "%A9%C3%A9"}, {"%C3%A9%C3", "%A9"}},
 }
 
 func (g *gen) pickPairs() {
@@ -982,11 +1201,12 @@ func (g *gen) codeArg() string {
 		return "c" + strconv.Itoa(r.Range(1, g.nsend+1))
 	case x < 93 && g.p.mock:
 		ph := g.anyPair()[1]
-		return "lit:" + mockSpec(tok(ph), r.PickInt(g.p.codeLen, g.p.codeLen, g.p.codeLen+1, 1))
+		raw, _ := tokB(ph)
+		return "lit:" + escLit(mockSpec(raw, r.PickInt(g.p.codeLen, g.p.codeLen, g.p.codeLen+1, 1)))
 	case x < 95:
 		return "lit:" // the empty code
 	case x < 96:
-		return "lit:abc"
+		return "lit:" + r.Pick("abc", "abc", "%C3%A9", "%A9", "%EF%BC%95", "%00", "5%20", "%25") // also non-ASCII / odd bytes
 	}
 	// near misses of the right code: leading digit dropped, full-width digits, blanks, last digit changed or dropped
 	return "cur^" + r.Pick("z", "fw", "ts", "sp", "ch", "tr", "U")
@@ -1191,6 +1411,83 @@ func genBoundary(r *rng.R) corr.Case {
 	return corr.Case{Tag: "boundary", Lines: lines}
 }
 
+// fill: the cache is really filled beyond its capacity (2 … 64) with generated phone numbers; the scripts pin the LRU order the
+// implementation must keep: a verify promotes, exactly the least recently used entry goes, a pair touched by fewer than CacheSize
+// others survives, and the minimum interval is still enforced for survivors.
+func genFill(r *rng.R) corr.Case {
+	g := &gen{r: r, p: genParams(r)}
+	cap := r.PickInt(2, 3, 4, 8, 8, 16, 16, 17, 17, 64)
+	variant := r.Intn(4)
+	g.p.cap, g.p.smsfail = cap, false
+	g.p.maxc, g.p.maxv, g.p.ttl, g.p.win = 3, r.PickInt(3, 5), neverMs, neverMs
+	g.p.mini = regime(variant != 2)
+	if g.p.codeLen < 0 {
+		g.p.codeLen = 4
+	}
+	area := r.Pick("86", "1", "1-809", "%C3%A9")
+	base := r.Intn(90000000)
+	pr := func(i int) [2]string { return [2]string{area, fmt.Sprintf("139%08d", base+i)} }
+	lines := []string{newLine(g.p)}
+	cur := func(i int) string { return g.verifyLine(pr(i), "cur", "hcur") }
+	switch variant {
+	case 0: // a verify promotes: the other old entry is the one that goes
+		lines = append(lines, g.sendLine(pr(0)), g.sendLine(pr(1)), cur(0))
+		for i := 2; i <= cap; i++ {
+			lines = append(lines, g.sendLine(pr(i)))
+		}
+		lines = append(lines, cur(0), cur(1), cur(2))
+	case 1: // cap+1+extra sends: exactly the first extra+1 are gone, the next one still verifies
+		extra := r.Intn(cap)
+		for i := 0; i <= cap+extra; i++ {
+			lines = append(lines, g.sendLine(pr(i)))
+		}
+		lines = append(lines, cur(extra+1), cur(extra), cur(cap+extra), cur(0))
+	case 2: // minimum interval after the fill: survivors are refused, evicted pairs accepted again
+		for i := 0; i <= cap; i++ {
+			lines = append(lines, g.sendLine(pr(i)))
+		}
+		lines = append(lines, g.sendLine(pr(1)), g.sendLine(pr(0)), g.sendLine(pr(cap)), cur(1))
+	default: // random traffic over cap+1 … 2·cap pairs
+		np := cap + 1 + r.Intn(cap)
+		for i := r.Range(2*cap, 4*cap); i > 0; i-- {
+			j := r.Intn(np)
+			if r.Chance(1, 2) {
+				lines = append(lines, g.sendLine(pr(j)))
+			} else {
+				lines = append(lines, g.verifyLine(pr(j), r.Pick("cur", "cur", "cur", "wrong"), "hcur"))
+			}
+		}
+	}
+	return corr.Case{Tag: "fill", Lines: lines}
+}
+
+// bulk lines: small ones are answered by the model run itself, large ones (thorough / search tiers) by the proved closed form.
+func genBulk(r *rng.R, tier string) corr.Case {
+	lines := []string{newLine(genParams(r))}
+	for i := r.Range(1, 3); i > 0; i-- {
+		cap := r.PickInt(0, 1, 2, 3, 8, 16, 17, 64, 100)
+		n := r.Range(0, 2*cap+3)
+		k := n - 1 - cap + r.Range(-2, 2)
+		if k < 0 || r.Chance(1, 5) {
+			k = r.Intn(n + 2)
+		}
+		lines = append(lines, fmt.Sprintf("bulk %d %d %d", cap, n, k))
+	}
+	if tier != "quick" && r.Chance(1, 25) {
+		cap := r.PickInt(100000, 100000, 65536, 65537, 70000, 69999)
+		n := r.PickInt(70000, 65537, 65536, 100001)
+		k := r.PickInt(0, 1, n-cap, n-cap-1, n-1, n-65536, n-65537, 4463)
+		if k < 0 {
+			k = 0
+		}
+		lines = append(lines, fmt.Sprintf("bulk %d %d %d", cap, n, k))
+	}
+	if tier != "quick" && r.Chance(1, 80) { // concurrent callers in a child process (thorough / search tiers only)
+		lines = append(lines, fmt.Sprintf("stress %d %d", r.PickInt(4, 8, 8, 16), r.PickInt(5000, 20000)))
+	}
+	return corr.Case{Tag: "bulk", Lines: lines}
+}
+
 var bases = []string{"0123456789", "0123456789", "ab", "a", "abc", "_", "aab", "abcdefghijklmnopqrstuvwxyz", "01"}
 
 func genNonce(r *rng.R) corr.Case {
@@ -1238,7 +1535,7 @@ func genMalformed(r *rng.R) corr.Case {
 	bad := []string{"send 1", "send", "send 1 23 4", "verify 1 23 cur", "verify 1 23 cur hcur x", "verify 1 23 cux hcur", "verify 1 23 cur g1",
 		"verify 1 23 c hcur", "verify 1 23 c1x h1", "verify 1 23 cur h1x", "frob 1 2", "", "nonce ab 1", "nonce ab x 1", "nonce ab 1 1,,2", "nonce ab 1 1,-2",
 		"cover", "cover ab cd", "sample ab 1", "sample ab 0 100", "sample _ 1 1000", "sample ab 1 x", "SEND 1 23", "send 1 23", "verify 1 23 cur hcur",
-		"verify 1 23 lit: h-", "nonce ab 2 1,2", "new"}
+		"verify 1 23 lit: h-", "nonce ab 2 1,2", "new", "send 1 %", "send %4 2", "send 1 %zz", "verify 1 2%C lit:1 hx", "verify 1 23 lit:%4 hx", "bulk 1 2", "bulk 1 2 x", "bulk 3 200001 0", "bulk -1 2 0", "bulk 2 3 1"}
 	for i := r.Range(1, 6); i > 0; i-- {
 		lines = append(lines, bad[r.Intn(len(bad))])
 	}
@@ -1260,10 +1557,45 @@ func clockCases() []corr.Case {
 }
 
 func fixedCases() []corr.Case {
-	cs := fixedBase()
+	cs := append(fixedBase(), fillCases()...)
 	if clockAvailable {
 		cs = append(cs, clockCases()...)
 	}
+	return cs
+}
+
+// fillCases: the LRU order pinned through vcode with a cache that is really full (CacheSize 16 / 17 / 64), and the bulk line.
+func fillCases() []corr.Case {
+	nl := func(cap int, mini int64) string {
+		return fmt.Sprintf("new cap=%d mock=0 len=6 maxc=3 maxv=3 ttl=%d mini=%d win=%d smsfail=0", cap, neverMs, mini, neverMs)
+	}
+	ph := func(i int) string { return fmt.Sprintf("86 139%08d", i) }
+	var cs []corr.Case
+	for _, cap := range []int{16, 17, 64} {
+		// a verify promotes (send A, send B, verify A, cap-1 others: A stays, B goes)
+		l := []string{nl(cap, alwaysMs), "send " + ph(0), "send " + ph(1), "verify " + ph(0) + " cur hcur"}
+		for i := 2; i <= cap; i++ {
+			l = append(l, "send "+ph(i))
+		}
+		cs = append(cs, corr.Case{Tag: "fixed-fill", Lines: append(l, "verify "+ph(0)+" cur hcur", "verify "+ph(1)+" cur hcur")})
+		// cap+1 sends: exactly the first is gone, the second still verifies; the minimum interval still holds for the survivor
+		l = []string{nl(cap, neverMs)}
+		for i := 0; i <= cap; i++ {
+			l = append(l, "send "+ph(i))
+		}
+		cs = append(cs, corr.Case{Tag: "fixed-fill", Lines: append(l, "verify "+ph(1)+" cur hcur", "verify "+ph(0)+" cur hcur", "send "+ph(1), "send "+ph(0))})
+	}
+	std := nl(100000, alwaysMs)
+	cs = append(cs,
+		corr.Case{Tag: "fixed-bulk", Lines: []string{std, "bulk 16 17 1", "bulk 16 17 0", "bulk 3 5 2", "bulk 3 5 1", "bulk 0 3 2", "bulk 5 3 7", "bulk 64 300 236", "bulk 64 300 235", "bulk 1 1 0", "bulk 7 0 0"}},
+		// the CacheSize the harness itself configures must really be honoured: 70 000 entries in a 100 000 cache
+		corr.Case{Tag: "fixed-bulk", Lines: []string{std, "bulk 100000 70000 0"}},
+		// byte strings: "é" = C3 A9; the pairs ("é","5") and ("\xc3","\xa95") are different pairs
+		corr.Case{Tag: "fixed-bytes", Lines: []string{"new cap=100000 mock=1 len=1 maxc=3 maxv=3 ttl=9223372037 mini=-1 win=9223372037 smsfail=0", "send %C3%A9 5", "verify %C3 %A95 lit:5 h1", "verify %C3%A9 5 cur hcur",
+			"send %C3%A9%C3%A9 %C3%A9", "verify %C3%A9%C3%A9 %C3%A9 lit:%A9 hcur", "verify %C3%A9 %C3%A9%C3%A9 lit:%A9 h2", "verify %C3%A9%C3%A9 %C3%A9 lit:%C3%A9 hcur"}},
+		corr.Case{Tag: "fixed-bytes", Lines: []string{"new cap=100000 mock=1 len=3 maxc=3 maxv=3 ttl=9223372037 mini=-1 win=9223372037 smsfail=0", "send 86 7%C3%A9", "verify 86 7%C3%A9 cur hcur", "verify 86 7%C3%A9 lit:7%C3%A9 h1",
+			"send %5F %25", "verify %5F %25 lit:00%25 hcur", "verify _ %25 lit:00%25 h2", "send 86 %C", "send 86 %c3", "verify 86 5 lit:%G1 hx"}},
+	)
 	return cs
 }
 
@@ -1325,11 +1657,15 @@ func genCase(r *rng.R, tier string, i int) corr.Case {
 		return genLimits(r)
 	case x < 73:
 		return genCross(r)
-	case x < 82:
+	case x < 80:
 		return genEvict(r)
-	case x < 92:
-		return genNonce(r)
+	case x < 86:
+		return genFill(r)
+	case x < 88:
+		return genBulk(r, tier)
 	case x < 94:
+		return genNonce(r)
+	case x < 95:
 		return genSample(r)
 	}
 	return genMalformed(r)
@@ -1359,13 +1695,13 @@ func spec() corr.Spec {
 					acc = true
 				case strings.HasPrefix(l, "verify ") && acc && o != "bad-op":
 					ver = true
-				case (strings.HasPrefix(l, "nonce ") || strings.HasPrefix(l, "cover ") || strings.HasPrefix(l, "sample ")) && o != "bad-op":
+				case (strings.HasPrefix(l, "nonce ") || strings.HasPrefix(l, "cover ") || strings.HasPrefix(l, "sample ") || strings.HasPrefix(l, "bulk ") || strings.HasPrefix(l, "stress ")) && o != "bad-op":
 					other = true
 				}
 			}
 			return (acc && ver) || other
 		},
-		Rule: "send/verify histories over up to 7 (area, phone) pairs — area codes and phones with and without '-', empty strings, and groups of pairs that a dashed or an unseparated key confuses — mock and real-sender modes, code lengths {-1,0,1,4,6,25}, limits -1..5, durations -1 ms / 9223372037 ms (and, with the clock hook, finite durations probed at d-1, d, d+1 by tick lines; class `boundary`), failing sender, CacheSize 100000 or 0..4 (eviction); classes: random histories, attempt-limit boundaries, send-limit boundaries, cross-pair code/hash reuse, small-cache eviction, scripted genNonceStr, sampled SecGenNonceStr, malformed lines; non-trivial = an accepted send followed by a verify, or a nonce/cover/sample line that was executed; distinct = distinct script text",
+		Rule: "send/verify histories over up to 7 (area, phone) pairs — area codes and phones with and without '-', empty strings, and groups of pairs that a dashed or an unseparated key confuses — mock and real-sender modes, code lengths {-1,0,1,4,6,25}, limits -1..5, durations -1 ms / 9223372037 ms (and, with the clock hook, finite durations probed at d-1, d, d+1 by tick lines; class `boundary`), failing sender, CacheSize 100000 or 0..4, 8, 16, 17, 64 (eviction; class `fill` really fills the cache with generated phone numbers; `bulk` lines send to up to 100001 distinct pairs), byte-string tokens (%XX: non-ASCII area codes, phones and codes); classes: random histories, attempt-limit boundaries, send-limit boundaries, cross-pair code/hash reuse, small-cache eviction, scripted genNonceStr, sampled SecGenNonceStr, malformed lines; non-trivial = an accepted send followed by a verify, or a nonce/cover/sample line that was executed; distinct = distinct script text",
 		Assumptions: []string{
 			"time: without the clock hook (default build, clock_nohook.go) vcode reads the real clock; only the durations -1 ms (always elapsed) and 9223372037 ms (106.75 days, never elapses; x1000 overflows into a negative duration) are configured, for which the unknown real elapsed time (a few microseconds, >= 0, monotonic) and the model's elapsed time 0 compare alike; no tick lines. With the hook vcode.VerifSetNow (build tag vcodenow) the implementation reads a fake clock set by tick lines and every duration d in {0,1,2,3,5,10,1000,86400000} ms is probed at d-1, d, d+1. The unit is the pinned fact durationIdentity (tex.Duration.Duration() = time.Duration(i))",
 			"the cache is cache.LRUCache with capacity CacheSize and entries of size 1 (facts sizeIsOne, simpleCacheIsLRU; NewSimpleLogic ignores the cache passed in: fact ownCache); its semantics (Set moves to front and evicts from the back, Get promotes, Peek does not) are modelled and exercised with CacheSize 0..4",
